@@ -222,22 +222,32 @@ func (d *Decoder) unmarshal(val reflect.Value, tagType byte) error {
 		vt := val.Type()
 		if vt == reflect.TypeOf(ba) {
 			val.SetBytes(ba)
-		} else if vt.Kind() == reflect.Slice {
+		} else if vt.Kind() == reflect.Slice || vt.Kind() == reflect.Array {
 			switch ve := vt.Elem(); ve.Kind() {
-			case reflect.Int8, reflect.Uint8:
+			case reflect.Int8, reflect.Uint8, reflect.Bool:
 				length := int(aryLen)
-				if val.Cap() < length {
-					val.Set(reflect.MakeSlice(vt, length, length))
+				if vt.Kind() == reflect.Array {
+					if vt.Len() != length {
+						return errors.New("cannot parse TagByteArray to " + vt.String() + ", length not match")
+					}
+				} else {
+					if val.Cap() < length {
+						val.Set(reflect.MakeSlice(vt, length, length))
+					}
+					val.SetLen(length)
 				}
-				val.SetLen(length)
 				switch ve.Kind() {
 				case reflect.Int8:
 					for i := 0; i < length; i++ {
-						val.Index(i).Set(reflect.ValueOf(int8(ba[i])))
+						val.Index(i).SetInt(int64(int8(ba[i])))
 					}
 				case reflect.Uint8:
 					for i := 0; i < length; i++ {
-						val.Index(i).Set(reflect.ValueOf(ba[i]))
+						val.Index(i).SetUint(uint64(ba[i]))
+					}
+				case reflect.Bool:
+					for i := 0; i < length; i++ {
+						val.Index(i).SetBool(ba[i] != 0)
 					}
 				}
 			default:
@@ -254,14 +264,14 @@ func (d *Decoder) unmarshal(val reflect.Value, tagType byte) error {
 		if err != nil {
 			return err
 		}
-		vt := val.Type() // receiver must be []int or []int32
+		vt := val.Type() // receiver must be a slice or array of int, int32, uint or uint32
 		if vt.Kind() == reflect.Interface {
 			vt = reflect.TypeOf([]int32{}) // pass
 		} else if vt.Kind() == reflect.Array && vt.Len() != int(aryLen) {
 			return errors.New("cannot parse TagIntArray to " + vt.String() + ", length not match")
 		} else if k := vt.Kind(); k != reflect.Slice && k != reflect.Array {
 			return errors.New("cannot parse TagIntArray to " + vt.String() + ", it must be a slice")
-		} else if tk := val.Type().Elem().Kind(); tk != reflect.Int && tk != reflect.Int32 {
+		} else if tk := val.Type().Elem().Kind(); tk != reflect.Int && tk != reflect.Int32 && tk != reflect.Uint && tk != reflect.Uint32 {
 			return errors.New("cannot parse TagIntArray to " + vt.String())
 		}
 
@@ -269,12 +279,17 @@ func (d *Decoder) unmarshal(val reflect.Value, tagType byte) error {
 		if vt.Kind() == reflect.Slice {
 			buf = reflect.MakeSlice(vt, int(aryLen), int(aryLen))
 		}
+		unsigned := vt.Elem().Kind() == reflect.Uint || vt.Elem().Kind() == reflect.Uint32
 		for i := 0; i < int(aryLen); i++ {
 			value, err := d.readInt32()
 			if err != nil {
 				return err
 			}
-			buf.Index(i).SetInt(int64(value))
+			if unsigned {
+				buf.Index(i).SetUint(uint64(uint32(value)))
+			} else {
+				buf.Index(i).SetInt(int64(value))
+			}
 		}
 		if vt.Kind() == reflect.Slice {
 			val.Set(buf)
@@ -285,15 +300,20 @@ func (d *Decoder) unmarshal(val reflect.Value, tagType byte) error {
 		if err != nil {
 			return err
 		}
-		vt := val.Type() // receiver must be []int or []int64
+		vt := val.Type() // receiver must be a slice or array of int, int64, uint or uint64
 		if vt.Kind() == reflect.Interface {
 			vt = reflect.TypeOf([]int64{}) // pass
-		} else if vt.Kind() != reflect.Slice {
+		} else if vt.Kind() == reflect.Array && vt.Len() != int(aryLen) {
+			return errors.New("cannot parse TagLongArray to " + vt.String() + ", length not match")
+		} else if k := vt.Kind(); k != reflect.Slice && k != reflect.Array {
 			return errors.New("cannot parse TagLongArray to " + vt.String() + ", it must be a slice")
 		}
+		buf := val
+		if vt.Kind() == reflect.Slice {
+			buf = reflect.MakeSlice(vt, int(aryLen), int(aryLen))
+		}
 		switch vt.Elem().Kind() {
-		case reflect.Int64:
-			buf := reflect.MakeSlice(vt, int(aryLen), int(aryLen))
+		case reflect.Int, reflect.Int64:
 			for i := 0; i < int(aryLen); i++ {
 				value, err := d.readInt64()
 				if err != nil {
@@ -301,9 +321,7 @@ func (d *Decoder) unmarshal(val reflect.Value, tagType byte) error {
 				}
 				buf.Index(i).SetInt(value)
 			}
-			val.Set(buf)
-		case reflect.Uint64:
-			buf := reflect.MakeSlice(vt, int(aryLen), int(aryLen))
+		case reflect.Uint, reflect.Uint64:
 			for i := 0; i < int(aryLen); i++ {
 				value, err := d.readInt64()
 				if err != nil {
@@ -311,9 +329,11 @@ func (d *Decoder) unmarshal(val reflect.Value, tagType byte) error {
 				}
 				buf.Index(i).SetUint(uint64(value))
 			}
-			val.Set(buf)
 		default:
 			return errors.New("cannot parse TagLongArray to " + vt.String())
+		}
+		if vt.Kind() == reflect.Slice {
+			val.Set(buf)
 		}
 
 	case TagList:
